@@ -63,7 +63,13 @@ def handle (op : String) (j : Json) : Except String Json := do
   | "c18.dom" =>
     let src ← getChart j "src"
     let tgt ← getChart j "tgt"
+    -- `no_sep` is no hypothesis of a C18 theorem any more (D19c repaired); still reported because C15 reads it
     .ok (okJson (obj [("no_sep", Json.bool (noSep src)), ("holds_have_length", Json.bool (holdsHaveLength tgt))]))
+  | "c18.copy_join" =>
+    -- the hand-written pre-D19c variant (names joined with ';' and split again), for documentation and tests
+    let src ← getChart j "src"
+    let tgt ← getChart j "tgt"
+    .ok (okJson (chartToJson (copyJoin src tgt)))
   | _ => .error s!"unknown op {op}"
 
 end Reamber.C18
